@@ -4,27 +4,44 @@
    options cannot be exhibited by a functional model (no aliasing): that half is checked on the implementation by the
    oracle (root and options serialised before and after every call) — partial, DESIGN.md section 9. *)
 From Coq Require Import List String Bool Arith.
-From Spec Require Import Base.Json Base.Url Codec.Types Codec.Codec Expand.Expand Expand.ExpandFacts.
+From Spec Require Import Base.Json Base.Url Codec.Types Codec.Gen_Tables Codec.Codec Codec.CodecFacts Expand.Expand Expand.ExpandFacts
+  Expand.ExpandSim Expand.ExpandSimCheck Expand.ExpandCycle Expand.ExpandElem Expand.ExpandTermG Expand.ExpandExample.
 Import ListNotations.
+Local Open Scope string_scope.
 
-(* termination of the schema entry points: the same pigeonhole bound *)
-Theorem C10_schema_with_root_terminates : forall E docs cwd OP live U d pseudo root c0 j,
-  (forall x, canonical_output x -> In x U) -> List.length U < d ->
-  expand_schema_with_root E docs cwd OP pseudo live d pseudo root c0 j <> OOF.
+(* termination of the schema entry points: the bound of C04 relative to the reference graph *)
+Theorem C10_schema_with_base_terminates : forall E docs cwd OP ctx_base nodes live,
+  check_nodes E docs cwd OP ctx_base "" nodes = true ->
+  (forall lu ld, live = Some (lu, ld) -> doc_at docs cwd lu = Some ld) -> o_cont OP = false ->
+  forall d base c0 j,
+  (forall u x, assoc u c0 = Some x -> assoc u docs = Some x) -> List.length (refs_of nodes) < d -> GN nodes base j ->
+  expand_schema_with_base E docs cwd OP ctx_base live d base c0 j <> OOF.
 Proof.
-  intros E docs cwd OP live U d pseudo root c0 j HU Hd. unfold expand_schema_with_root.
-  eapply exp_terminates; [exact HU|constructor|intros x []|cbn; exact Hd].
-Qed.
-Print Assumptions C10_schema_with_root_terminates.
-
-Theorem C10_schema_with_base_terminates : forall E docs cwd OP live U d base c0 j,
-  (forall x, canonical_output x -> In x U) -> List.length U < d ->
-  expand_schema_with_base E docs cwd OP base live d base c0 j <> OOF.
-Proof.
-  intros E docs cwd OP live U d base c0 j HU Hd. unfold expand_schema_with_base.
-  eapply exp_terminates; [exact HU|constructor|intros x []|cbn; exact Hd].
+  intros E docs cwd OP ctx_base nodes live Hck Hlive Hstrict d base c0 j Hc0 Hd Hg. unfold expand_schema_with_base.
+  apply (checked_exp_terminates E docs cwd OP ctx_base "" nodes live Hck Hlive Hstrict); try assumption.
+  - constructor.
+  - split; [exact Hc0|reflexivity].
+  - intros ru Hru. discriminate.
 Qed.
 Print Assumptions C10_schema_with_base_terminates.
+
+Theorem C10_schema_with_root_terminates : forall E docs cwd OP ctx_base nodes live,
+  check_nodes E docs cwd OP ctx_base "" nodes = true ->
+  (forall lu ld, live = Some (lu, ld) -> doc_at docs cwd lu = Some ld) -> o_cont OP = false ->
+  forall d pseudo root c0 j,
+  assoc pseudo docs = Some root -> (forall u x, assoc u c0 = Some x -> assoc u docs = Some x) ->
+  List.length (refs_of nodes) < d -> GN nodes pseudo j ->
+  expand_schema_with_root E docs cwd OP ctx_base live d pseudo root c0 j <> OOF.
+Proof.
+  intros E docs cwd OP ctx_base nodes live Hck Hlive Hstrict d pseudo root c0 j Hroot Hc0 Hd Hg. unfold expand_schema_with_root.
+  apply (checked_exp_terminates E docs cwd OP ctx_base "" nodes live Hck Hlive Hstrict); try assumption.
+  - constructor.
+  - split; [|reflexivity]. unfold state_with_root. cbn [cache]. intros u x. cbn [assoc]. destruct (String.eqb u pseudo) eqn:Eu.
+    + apply String.eqb_eq in Eu. subst u. intros Hx. inversion Hx; subst. exact Hroot.
+    + apply Hc0.
+  - intros ru Hru. discriminate.
+Qed.
+Print Assumptions C10_schema_with_root_terminates.
 
 (* the supplied root is what `#/...` references of the element are read in: with the root cached under the pseudo
    location, a fragment-only reference resolves to the designated member of that root *)
@@ -50,3 +67,82 @@ Proof.
   constructor; cbn; [constructor|intros x []|intros x []|intros x H; exact H].
 Qed.
 Print Assumptions C10_cache_discipline.
+
+(* ---------- meaning ("the result denotes the same tree as the element does in the context of that root") ----------
+   The entry points inherit the meaning theorems of C02, because they ARE the core functions started in a particular state:
+   ExpandSchemaWithBasePath = exp from a state whose cache is the caller's, without resolver root; ExpandSchema(root) = the
+   same with the root cached under its pseudo location; Expand{Parameter,Response}* = expand_por.  What the set-up must
+   guarantee is only that the initial cache is consistent with what the loader serves. *)
+Theorem C10_schema_with_base_preserves_meaning : forall E docs cwd OP ctx_base nodes live,
+  check_nodes E docs cwd OP ctx_base "" nodes = true ->
+  (forall lu ld, live = Some (lu, ld) -> doc_at docs cwd lu = Some ld) ->
+  o_cont OP = false ->
+  forall d base c0 j s' j',
+  (forall u x, assoc u c0 = Some x -> assoc u docs = Some x) ->
+  GN nodes base j ->
+  expand_schema_with_base E docs cwd OP ctx_base live d base c0 j = Done (s', j') ->
+  bisimilar E docs cwd base j ctx_base j'.
+Proof.
+  intros E docs cwd OP ctx_base nodes live Hck Hlive Hstrict d base c0 j s' j' Hc0 Hg H. unfold expand_schema_with_base in H.
+  refine (proj2 (checked_graph_sim E docs cwd OP ctx_base "" nodes live Hck Hlive Hstrict d _ _ _ _ _ _ _ Hg _ _ H)).
+  - split; [exact Hc0|reflexivity].
+  - intros ru Hru. discriminate.
+Qed.
+Print Assumptions C10_schema_with_base_preserves_meaning.
+
+Theorem C10_schema_with_root_preserves_meaning : forall E docs cwd OP ctx_base nodes live,
+  check_nodes E docs cwd OP ctx_base "" nodes = true ->
+  (forall lu ld, live = Some (lu, ld) -> doc_at docs cwd lu = Some ld) ->
+  o_cont OP = false ->
+  forall d pseudo root c0 j s' j',
+  assoc pseudo docs = Some root ->          (* the root is what a request for its pseudo location would be answered with *)
+  (forall u x, assoc u c0 = Some x -> assoc u docs = Some x) ->
+  GN nodes pseudo j ->
+  expand_schema_with_root E docs cwd OP ctx_base live d pseudo root c0 j = Done (s', j') ->
+  bisimilar E docs cwd pseudo j ctx_base j'.
+Proof.
+  intros E docs cwd OP ctx_base nodes live Hck Hlive Hstrict d pseudo root c0 j s' j' Hroot Hc0 Hg H. unfold expand_schema_with_root in H.
+  refine (proj2 (checked_graph_sim E docs cwd OP ctx_base "" nodes live Hck Hlive Hstrict d _ _ _ _ _ _ _ Hg _ _ H)).
+  - split; [|reflexivity]. unfold state_with_root. cbn [cache]. intros u x. cbn [assoc]. destruct (String.eqb u pseudo) eqn:Eu.
+    + apply String.eqb_eq in Eu. subst u. intros Hx. inversion Hx; subst. exact Hroot.
+    + apply Hc0.
+  - intros ru Hru. discriminate.
+Qed.
+Print Assumptions C10_schema_with_root_preserves_meaning.
+
+(* ExpandParameter / ExpandResponse against a base location: the element-level theorem of C02 *)
+Theorem C10_element_with_base_preserves_meaning : forall E docs cwd OP ctx_base nodes enodes live,
+  check_nodes E docs cwd OP ctx_base "" nodes = true -> check_enodes E docs cwd enodes nodes = true ->
+  (forall lu ld, live = Some (lu, ld) -> doc_at docs cwd lu = Some ld) -> o_cont OP = false ->
+  forall kind d base c0 m s' j' s1 m1 rr1 b1,
+  (forall u x, assoc u c0 = Some x -> assoc u docs = Some x) ->
+  GEN enodes kind base m ->
+  deref E docs cwd OP live (S d) (state_plain c0) [] None base kind m = Done (s1, m1, rr1, b1) -> get_str "$ref" m1 = "" ->
+  expand_element_with_base E docs cwd OP ctx_base live d base c0 kind (JObj m) = Done (s', j') ->
+  chases_k E docs cwd kind base m b1 m1 /\
+  exists mo, j' = JObj mo /\ forall n, rel_por E docs cwd n b1 (remove_key "$ref" m1) ctx_base mo.
+Proof.
+  intros E docs cwd OP ctx_base nodes enodes live Hck Hcke Hlive Hstrict kind d base c0 m s' j' s1 m1 rr1 b1 Hc0 Hg Hd Hend H.
+  unfold expand_element_with_base in H.
+  refine (proj2 (checked_por_sim E docs cwd OP ctx_base "" nodes enodes live Hck Hcke Hlive Hstrict kind d (S d) _ _ _ _ _ _ _ _ _ _ Hg _ _ Hd Hend H)).
+  - split; [exact Hc0|reflexivity].
+  - intros ru Hru. discriminate.
+Qed.
+Print Assumptions C10_element_with_base_preserves_meaning.
+
+(* non-vacuity: ExpandSchemaWithBasePath on definition `c` of the second document of the example graph, nothing cached *)
+Definition ex_c10 : json := match ptr_get ["definitions"; "c"] ex_other with Some j => j | None => JNull end.
+Example C10_example : forall s' j',
+  expand_schema_with_base gen_env ex_docs "/" (mkOpts false false false) ex_root_url None 8 ex_other_url [] ex_c10 = Done (s', j') ->
+  bisimilar gen_env ex_docs "/" ex_other_url ex_c10 ex_root_url j'.
+Proof.
+  intros s' j' H.
+  assert (Hck : check_nodes gen_env ex_docs "/" (mkOpts false false false) ex_root_url "" ex_nodes = true) by (vm_compute; reflexivity).
+  refine (C10_schema_with_base_preserves_meaning gen_env ex_docs "/" _ ex_root_url ex_nodes None Hck _ eq_refl 8 ex_other_url [] ex_c10 s' j' _ _ H).
+  - intros lu ld E. discriminate.
+  - intros u x E. discriminate.
+  - vm_compute. tauto.
+Qed.
+Example C10_example_runs : exists s' j',
+  expand_schema_with_base gen_env ex_docs "/" (mkOpts false false false) ex_root_url None 8 ex_other_url [] ex_c10 = Done (s', j').
+Proof. vm_compute. eexists. eexists. reflexivity. Qed.
